@@ -63,7 +63,7 @@ def run(ctx):
     for r in res.records:
         t1, t2 = U(r["text1"]), U(r["text2"])
         for dname, V in dialects():
-            for alias in (None, "al"):
+            for alias in (None, "T1x"):
                 a = translate(V, alias, t1)
                 b = translate(V, alias, t2)
                 ctx.evaluations += 1
@@ -128,7 +128,7 @@ def replay(ctx, rep):
     traces, info = [], {}
     t1, t2 = U(r["text1"]), U(r["text2"])
     for dname, V in dialects():
-        for alias in (None, "al"):
+        for alias in (None, "T1x"):
             a, b = translate(V, alias, t1), translate(V, alias, t2)
             if a[0] == "ok" and b[0] == "ok":
                 cid = len(traces) + 1
